@@ -161,7 +161,7 @@ def gen_match_cases(seed, n, quick):
         for v in range(3):
             cases.append((sh, v, pays[v], arms, "local", (1, 7)))
     # every mode x every payload kind x boundary payloads, arms = exhaustive in order
-    shapes = [user_shape(["none", "int", "string", "long"]), option_shape("int"), option_shape("long"), option_shape("string"),
+    shapes = [user_shape(["none", "int", "string", "long"]), user_shape(["none"]), user_shape(["none", "none", "none"]), option_shape("int"), option_shape("long"), option_shape("string"),
               result_shape("int", "string"), result_shape("string", "int"), result_shape("long", "int")]
     for sh in shapes:
         for mode in MODES:
@@ -177,7 +177,7 @@ def gen_match_cases(seed, n, quick):
     for _ in range(n):
         nv = r.range(1, 5)
         kinds = [r.choice(["none", "int", "long", "string"]) for _ in range(nv)]
-        sh = user_shape(kinds) if r.chance(70) else r.choice(shapes[1:])
+        sh = user_shape(kinds) if r.chance(70) else r.choice(shapes[3:])
         nv = len(sh.kinds)
         v = r.below(nv)
         p = pick_payload(r, sh.kinds[v])
